@@ -614,8 +614,9 @@ func newBuilder(seed uint32, mkdirs []string, keep bool) *builder {
 	return b
 }
 
-var c18Dirs = []string{"", ".", "/", "/d", "/d/", "/d/../d", "/d//sub/.", "d", "../up", "/new/deep/dir"}
-var c18Patterns = []string{"", "x", "x*", "*y", "x*y", "a*b*c", "*", "**", "x.y*.txt", "sp ace *", ".", "..", "..*", "x*..", "../esc*", "a/b", "/abs*", "x*/y", "x*y/", "*/"}
+// (the last two: a "*" in the DIRECTORY is an ordinary character; hidden relative directories)
+var c18Dirs = []string{"", ".", "/", "/d", "/d/", "/d/../d", "/d//sub/.", "d", "../up", "/new/deep/dir", "/w/build*", "/w/a*b/c", ".cache", ".hid/sub"}
+var c18Patterns = []string{"", "x", "x*", "*y", "x*y", "a*b*c", "*", "**", "x.y*.txt", "sp ace *", ".", "..", "..*", "x*..", "../esc*", "a/b", "/abs*", "x*/y", "x*y/", "*/", ".draft-*.txt", ".hidden", "..x*"}
 
 // lcgPreimageOfZero: the state from which the next step yields 0 (so the call after reseeds).
 func lcgPreimageOfZero() uint32 {
